@@ -236,6 +236,17 @@ fn gen_case(u: &mut Choices, sz: Size) -> (Case, bool) {
             },
         ));
     }
+    // a failing `query == query` clause with several differing values on both sides
+    file.rules.push(rule1(
+        "queries",
+        Item::Clause(Clause {
+            prefneg: false,
+            some: false,
+            q: Query { head: Head::Key("Resources".into()), parts: vec![Part::Star, Part::Key("Properties".into()), Part::Star] },
+            kind: Kind::Binary { op: BinOp::Eq, opneg: false, rhs: Expr::Query { some: false, q: Query { head: Head::Key("Resources".into()), parts: vec![Part::Star, Part::Key("Type".into())] } } },
+            msg: None,
+        }),
+    ));
     let rules = print_file(&file);
     let names: Vec<String> = file.rules.iter().map(|r| r.name.clone()).collect();
     let exps: Vec<String> = names.iter().map(|n| format!("\"{}\": \"{}\"", n, ["PASS", "FAIL", "SKIP"][u.below(3)])).collect();
